@@ -53,11 +53,11 @@ CHECKS = {
    note="The reference takes the content at the flush from the instance itself and applies grave goods / last wills with the documented relation; v1 has no registration file.",
    technique="exhaustive enumeration of a bounded input space through the real flush and load code (round trip oracle)"),
  "C10": dict(cat="fault_enumeration", engine="wbmc-core/persist + crashfs", ref="DESIGN.md §3 C10",
-   text="Exhaustive crash-point enumeration under the process-crash model: a child process runs a history of 3 (quick) / 4 (thorough) flushes with pairwise distinct stores and registrations under an LD_PRELOAD shim that kills it immediately before each mutating file-system call (plus torn variants of every *.tmp write); from every distinct directory state left behind two second runs (load, mutate, flush, mutate, flush: once into new states, once back to the state the slot written next held before) are checked on completion and killed at each of their calls again; after every crash the real load() must recover exactly the last completed or the in-progress flush with that same flush's registrations applied.",
+   text="Exhaustive crash-point enumeration under the process-crash model: a child process runs a history of 3 (quick) / 4 (thorough) flushes (synchronous flush; two ticks of one run of the periodic task between which only the registrations change; synchronous flush) under an LD_PRELOAD shim that kills it immediately before each mutating file-system call (plus torn variants of every *.tmp write); from every distinct directory state left behind two second runs (load, mutate, flush, mutate, flush: once into new states, once back to the state the slot written next held before) are checked on completion and killed at each of their calls again; after every crash the real load() must recover exactly the last completed or the in-progress flush with that same flush's registrations applied.",
    note="Completed file operations persist in order, only *.tmp files can be torn (the property's crash model); the flushes alternate between the synchronous variant (shutdown / follower path) and a tick of the real periodic flush task; crash points at the libc boundary.",
    technique="exhaustive fault (crash-point) enumeration of the real flush/load code with an LD_PRELOAD process-kill injector, two crash levels"),
  "C14": dict(cat="exploration", engine="wbmc-core/c14", ref="DESIGN.md §3 C14",
-   text="Exhaustive enumeration of every variant of ClientMessage (23), ServerMessage (8) and the cluster sync messages (LeaderSyncMessage, ClientWriteCommand, StateSync built by the real export) over small field alphabets (u64-boundary ids and versions, keys with empty/unicode/newline/quote/U+2028, JSON terms of depth <= 2 whose object keys collide with envelope field names, optional fields present/absent): the encoding must be one line, deterministic, accepted by write_line_and_flush, and decode (from_str and the real receive_msg line reader) to an equal message.",
+   text="Exhaustive enumeration of every variant of ClientMessage (23), ServerMessage (8) and the cluster sync messages (LeaderSyncMessage, ClientWriteCommand, StateSync built by the real export) over small field alphabets (u64-boundary ids and versions, keys with empty/unicode/newline/quote/U+2028, JSON terms of depth <= 2 whose object keys collide with envelope field names, optional fields present/absent): the encoding must be one line, deterministic, accepted by write_line_and_flush, and decode (from_str and the real receive_msg line reader) to an equal message. The line writer is additionally run over transports that accept only 1 / 7 / 100 / 1023 bytes per call and must leave the same bytes on the wire; some values are longer than its 1024-byte chunks.",
    note="Equality is structural (PartialEq of the message types; StoreNode equality for StateSync).",
    technique="exhaustive enumeration of a bounded input space through the real codec (round trip oracle)"),
  "C16": dict(cat="model_checking", engine="wbmc-core/tree", ref="DESIGN.md §3 C16",
